@@ -961,6 +961,14 @@ def run(ctx: Ctx) -> None:
     check_conversions(ctx, view)
     rules.rule_passthrough_names(ctx, "2.8-passthrough", ds, "the options of the (un)normalisation keep their meaning from one method to the next")
     ctx.floor("2.8-passthrough", 10)
+    # the sibling class: a ParameterSpace is a design space whose random variables have a second set of views (the
+    # list of uncertain variables, their definitions, their marginals); an edit keeps them in one order too, and the
+    # probabilistic (un)normalisation splits / concatenates in the order of the variables (rule groups 19.6, 19.2 of C19)
+    from gv.props import c19
+    from gv.props.c12 import _Prefixed
+
+    c19.check_space(_Prefixed(ctx, "2.10-parameter-space/"))
+    c19.check_transform_pair(_Prefixed(ctx, "2.10-parameter-space/"))
     ctx.floor("2.1-store", 6)
     ctx.floor("2.1-delete", 5)
     ctx.floor("2.2-invalidate", 7)
